@@ -64,7 +64,12 @@ def h_rejection(ctx, bs, n, mode, K, region='main', nested=0, max_parallel=1, wi
     n_fin_adm = sum(1 for a, f in zip(adm, fin) if f and (a is True or a is not False))
     # admissibility of finite draws is decided on this path already (the code compared them), count symbolically
     n_ok = count_true([And(a, f) for a, f in zip(adm, fin)])
-    if region == 'main':
+    finite_threshold = thr is not None and not core._is_special(thr)
+    if finite_threshold and region == 'main':
+        # draws with +inf are inadmissible here, so the finding's tie cannot occur; that a finished run has
+        # consumed at least n admissible draws is then part of the claim, not an assumption
+        ctx.claim('finished_only_with_n_admissible_draws', n_ok >= n)
+    elif region == 'main':
         ctx.assume(n_ok >= n)
     else:
         ctx.assume(Not(n_ok >= n))
